@@ -25,7 +25,7 @@ RULE = ("random DAG programs over square integer arrays built through the public
 ASSUMPTIONS = [
     "networkx topological_sort returns a topological order (checked on every dag); dag.copy() isolates the optimized copy",
     "hypotheses of fuse_step_preserves (SSA array names, ReadsFrom, NameIndep, Unfused) — structural parts validated by the "
-    "correspondence of canFuse guards; key-function parts validated by the C15 check on every real key function",
+    "correspondence of canFuse guards; key-function parts (ReadsFrom, NameIndep, Unfused) validated on the real key functions of every op of every generated plan",
 ]
 TRUSTED = ["modelled not verified: networkx MultiDiGraph operations (modelled as list/multiset operations), NumPy kernels"]
 
@@ -61,6 +61,66 @@ def real_optimizer(mode, kw):
     raise ValueError(mode)
 
 
+def check_hypotheses(ctx, dag, prog):
+    """Validate, on the real key functions of every op of a real plan, the hypotheses the theorems put on key
+    functions: ReadsFrom (only blocks of declared source arrays are designated), NameIndep (result labelled with the out
+    key's name; arguments independent of that name) and Unfused (single keys, flat lists or flat streams)."""
+    import itertools
+    from collections.abc import Iterator
+
+    from cubed.primitive.blockwise import BlockwiseSpec, ChunkKey, FunctionArgs
+
+    def flat(t, kinds):
+        if isinstance(t, ChunkKey):
+            kinds.append("K")
+            return [t]
+        if isinstance(t, list):
+            kinds.append("L")
+            items = t
+        elif isinstance(t, Iterator):
+            kinds.append("I")
+            items = list(t)
+        else:
+            kinds.append("?")
+            return []
+        if not all(isinstance(x, ChunkKey) for x in items):
+            kinds.append("nested")
+        return [x for x in items if isinstance(x, ChunkKey)]
+
+    for name, d in dag.nodes(data=True):
+        pop = d.get("primitive_op")
+        if pop is None or not isinstance(pop.pipeline.config, BlockwiseSpec):
+            continue
+        f = pop.pipeline.config.back_key_function
+        coords = list(itertools.islice(iter(pop.pipeline.mappable), 12))
+        for c in coords:
+            c = tuple(c)
+            try:
+                fa1 = f(ChunkKey("out", c))
+                fa2 = f(ChunkKey(name + "-other", c))
+            except Exception as e:
+                ctx.dist["keyfn-raises:" + type(e).__name__] += 1
+                continue
+            ctx.traces += 1
+            if not isinstance(fa1, FunctionArgs) or fa1.output_name != "out" or fa2.output_name != name + "-other":
+                ctx.fail("hypothesis NameIndep violated: key function of %s does not label its result with the out key's name" % name,
+                         {"program": prog, "op": d.get("op_name"), "coords": c})
+                continue
+            k1, k2 = [], []
+            l1 = [flat(a, k1) for a in fa1.args]
+            l2 = [flat(a, k2) for a in fa2.args]
+            if "?" in k1 or "nested" in k1:
+                ctx.fail("hypothesis Unfused violated: key function of %s returns a nested / unknown argument structure %s" % (name, k1),
+                         {"program": prog, "op": d.get("op_name"), "coords": c})
+            if [[(k.name, tuple(k.coords)) for k in a] for a in l1] != [[(k.name, tuple(k.coords)) for k in a] for a in l2] or k1 != k2:
+                ctx.fail("hypothesis NameIndep violated: key function of %s depends on the out key's name" % name,
+                         {"program": prog, "op": d.get("op_name"), "coords": c})
+            bad = [k.name for a in l1 for k in a if k.name not in pop.source_array_names]
+            if bad:
+                ctx.fail("hypothesis ReadsFrom violated: op %s designates blocks of %s which are not among its source arrays" % (name, bad),
+                         {"program": prog, "op": d.get("op_name"), "coords": c})
+
+
 def corr(ctx):
     import cubed
     from cubed.core.plan import arrays_to_plan
@@ -82,6 +142,7 @@ def corr(ctx):
         ops, order, nodes_order, virtual = dx.export_dag(dag)
         if not dx.check_topo(dag, order):
             ctx.fail("networkx topological_sort is not topological (hypothesis Topo)", {"program": prog})
+        check_hypotheses(ctx, dag, prog)
         opnames = [n for n in dag.nodes() if n.startswith("op-")]
         for label, mode, kw, (ms, mb, al, nv) in configs(ctx.rng, opnames, ctx.tier):
             fn = real_optimizer(mode, kw)
